@@ -18,6 +18,17 @@
 (* the AES-CTR counter start 0 / all ones / low word(s) all ones (carry, wrap).  The ROM is indifferent *)
 (* to them (one pass; lemma SpecialsAccepted) - GEN emits them as the plan the harness has to REACH     *)
 (* with crafted payloads in every image class of the kind.                                              *)
+(* Strengthening round (seed C02-m8): (3) the SIGNING BACK END is a dimension of the case space: who       *)
+(* produces a signature (BackEnds: key file, built-in file provider, the same delivering DER, a plug-in     *)
+(* provider delivering r || s / DER / DER of a signature with a leading zero byte) - separately for the      *)
+(* image signature (be.img) and for the ISK certificate signature made with the root key (be.isk).  The     *)
+(* format has ONE signature field: r || s of fixed width (RSA: the modulus width); what a back end puts on   *)
+(* the wire (Wire) is not part of it, so the abstract image of a shape does not depend on be (be.emb =       *)
+(* "nxp": lemma BackEndsAccepted).  be.emb = "img" / "isk" is the image in which the blob of a DER back end *)
+(* is stored as delivered in that field: the bytes the ROM reads at the signature offset, in the signer's    *)
+(* width, are then not a signature (the fact is FALSE; every length that follows the blob only adds reasons) *)
+(* - lemma AsDeliveredRejected, the reason why the dimension is explored.                                    *)
+(* GEN emits every (kind, curve, ISK, be) as the plan the harness has to BUILD in every composition.         *)
 EXTENDS MbiRom, Json, IOUtils
 
 Full == IF "MC_FULL" \in DOMAIN IOEnv THEN IOEnv.MC_FULL = "1" ELSE FALSE
@@ -65,6 +76,20 @@ Shapes ==
 (* a special is explored on one representative shape per kind (it is a property of the content, not of the layout) *)
 SpShape(sh) == sh.app = (IF sh.kind \in {"crc_xip", "crc_ram"} /\ Full THEN 4096 ELSE 300) /\ sh.tzType = 0 /\ ~sh.ks /\ sh.depth \in {0, 1} /\ sh.kb \in {0, 256} /\ sh.nKeys \in {0, 1}
                /\ sh.curve \in {0, 32} /\ sh.isk = 0 /\ ~sh.dig
+
+(* ---- signing back ends: [img - who signs the image, isk - who signs the ISK certificate (root key), emb - how the blob is embedded] *)
+BackEnds == {"key", "file", "file_der", "plugin_raw", "plugin_der", "plugin_der_lz"}
+DerBackEnds == {"file_der", "plugin_der", "plugin_der_lz"}
+BackEndsOf(kind) == IF RomOf(kind).cb = 21 THEN BackEnds ELSE BackEnds \ {"plugin_der_lz"}     \* RSA: one encoding, no value class of r / s
+Wire(kind, b) == IF RomOf(kind).cb = 21 /\ b \in DerBackEnds THEN "der" ELSE "raw"            \* what sign() of the back end delivers
+NoBe(sh) == [img |-> (IF RomOf(sh.kind).cb = 0 THEN "none" ELSE "key"), isk |-> (IF sh.isk = 0 THEN "none" ELSE "key"), emb |-> "nxp"]
+(* explored on one representative layout per (kind, curve, ISK): the back end changes no length and no offset *)
+BeShape(sh) == RomOf(sh.kind).cb # 0 /\ sh.app = 300 /\ sh.tzType = 0 /\ ~sh.ks /\ sh.depth \in {0, 1} /\ sh.kb \in {0, 256} /\ sh.nKeys \in {0, 1}
+               /\ sh.ud = 0 /\ ~sh.dig
+BackEndChoices(sh) ==
+  IF ~BeShape(sh) THEN {NoBe(sh)}
+  ELSE { b \in [img : BackEndsOf(sh.kind), isk : (IF sh.isk = 0 THEN {"none"} ELSE BackEndsOf(sh.kind)), emb : {"nxp", "img", "isk"}] :
+           b.emb # "nxp" => Wire(sh.kind, b[b.emb]) = "der" }          \* emb names the field that holds a DER blob as delivered
 
 (* ---- the documented layout: regions [n, a, b) of the image of a shape *)
 R(n, a, b) == [n |-> n, a |-> a, b |-> b]
@@ -138,8 +163,8 @@ Build(sh) == LET rom == RomOf(sh.kind) IN
 
 DontCare == {"keystore"}
 
-VARIABLES shape, sp, t, s, img                            \* img = Build(shape), kept in the state so that it is computed once
-vars == <<shape, sp, t, s, img>>
+VARIABLES shape, sp, be, t, s, img                        \* img = Build(shape), kept in the state so that it is computed once
+vars == <<shape, sp, be, t, s, img>>
 rom == RomOf(shape.kind)
 TReg == img.reg[t]
 Hit(a, b) == t # 0 /\ TReg.a < b /\ a < TReg.b           \* the tampered region meets [a, b)
@@ -149,8 +174,10 @@ W2(n) == <<n \div 65536, n % 65536>>
 Corner == rom.hmac /\ shape.app < IvtLen                  \* the HMAC field lies inside the certificate block
 Init == /\ shape \in Shapes /\ img = Build(shape) /\ s = S0
         /\ sp \in (IF SpShape(shape) THEN Specials(shape.kind) ELSE {NoSp})
-        /\ t \in (IF sp = NoSp THEN 0..Len(img.reg) ELSE {0})
-Step(ok, nx) == s' = (IF ok THEN nx ELSE [s EXCEPT !.st = "Rejected"]) /\ UNCHANGED <<shape, sp, t, img>>
+        /\ be \in (IF sp = NoSp THEN BackEndChoices(shape) ELSE {NoBe(shape)})
+        /\ t \in (IF sp = NoSp /\ be = NoBe(shape) THEN 0..Len(img.reg) ELSE {0})
+Step(ok, nx) == s' = (IF ok THEN nx ELSE [s EXCEPT !.st = "Rejected"]) /\ UNCHANGED <<shape, sp, be, t, img>>
+AsIs(role) == be.emb = role /\ Wire(shape.kind, be[role]) = "der"  \* a DER blob sits where the ROM reads r || s
 CrcChain(cuts) == \* what an executor reports: the planned special at its cut, "other" elsewhere
   LET cs == { c \in cuts : c = 0 \/ c <= img.fileLen }
       f(c) == <<c, IF sp.what \in {"crc", "mancrc"} /\ sp.cut = c THEN sp.cls ELSE "other">>
@@ -178,7 +205,7 @@ RkhTable == s.st = "Rkh" /\ \E inT \in Aux(Hit(img.cbAt + V1HdrLen, img.cbEnd)) 
   LET e == [rd |-> TRUE, at |-> img.rkhAt, len |-> RkhLen, rootInTable |-> inT, rootIdx |-> 0, fuseOk |-> ~Hit(img.rkhAt, img.cbEnd)]
   IN Step(RkhOK(rom, s, e), RkhNx(rom, s, e))
 VerifySigV1 == s.st = "Sig1" /\
-  LET e == [rd |-> TRUE, ok |-> ~(Hit(0, IvtLen) \/ Hit(IvtLen + s.shift, img.fileLen)), sigAt |-> img.sigAt, sigLen |-> shape.kb,
+  LET e == [rd |-> TRUE, ok |-> ~(Hit(0, IvtLen) \/ Hit(IvtLen + s.shift, img.fileLen)) /\ ~AsIs("img"), sigAt |-> img.sigAt, sigLen |-> shape.kb,
             segs |-> << <<0, IvtLen>>, <<IvtLen + s.shift, img.sigAt>> >>]
   IN Step(Sig1OK(rom, s, e), Sig1Nx(rom, s, e))
 Decrypt == s.st = "Dec" /\
@@ -196,7 +223,7 @@ RootKeyRecord == s.st = "Rkr" /\ \E inT \in Aux(Hit(img.rkrAt, img.rkrEnd)) :
             fuseOk |-> ~(IF shape.nKeys > 1 THEN Hit(img.rkrAt + 4, img.keyAt) ELSE Hit(img.keyAt, img.rkrEnd))]
   IN Step(RkrOK(rom, s, e), RkrNx(rom, s, e))
 IskCert == s.st = "Isk" /\
-  LET e == [rd |-> TRUE, ok |-> ~Hit(img.rkrAt, img.cbEnd), at |-> img.rkrEnd, iskLen |-> shape.isk, udLen |-> shape.ud, udFlag |-> shape.ud > 0,
+  LET e == [rd |-> TRUE, ok |-> ~Hit(img.rkrAt, img.cbEnd) /\ ~AsIs("isk"), at |-> img.rkrEnd, iskLen |-> shape.isk, udLen |-> shape.ud, udFlag |-> shape.ud > 0,
             sigOff |-> 12 + shape.isk + shape.ud, sigAt |-> img.iskSigAt, sigLen |-> 2 * shape.curve, frm |-> img.rkrAt, to |-> img.iskSigAt]
   IN Step(IskOK(rom, s, e), IskNx(rom, s, e))
 CertBlockEnd == s.st = "CbEnd" /\ LET e == [at |-> img.cbEnd, size |-> img.cbEnd - img.cbAt] IN Step(CbEndOK(rom, s, e), CbEndNx(rom, s, e))
@@ -207,7 +234,7 @@ ManifestCrc == s.st = "ManCrc" /\
   LET e == [ok |-> ~Hit(0, img.sigAt), at |-> img.sigAt - 4, frm |-> 0, to |-> img.sigAt - 4, chain |-> CrcChain({40, 0})]
   IN Step(ManCrcOK(rom, s, e), ManCrcNx(rom, s, e))
 VerifySigV21 == s.st = "Sig21" /\
-  LET e == [rd |-> TRUE, ok |-> ~Hit(0, img.sigAt + img.signer), frm |-> 0, to |-> img.sigAt, sigAt |-> img.sigAt, sigLen |-> img.signer]
+  LET e == [rd |-> TRUE, ok |-> ~Hit(0, img.sigAt + img.signer) /\ ~AsIs("img"), frm |-> 0, to |-> img.sigAt, sigAt |-> img.sigAt, sigLen |-> img.signer]
   IN Step(Sig21OK(rom, s, e), Sig21Nx(rom, s, e))
 CheckDigest == s.st = "Dig" /\
   LET e == [rd |-> TRUE, ok |-> ~(Hit(0, img.sigAt) \/ Hit(img.sigAt + img.signer, img.fileLen)), at |-> img.sigAt + img.signer, len |-> img.digLen, frm |-> 0, to |-> img.sigAt]
@@ -215,15 +242,16 @@ CheckDigest == s.st = "Dig" /\
 Accept == s.st = "Done" /\ Step(AcceptOK(rom, s), AcceptNx(rom, s))
 Emit == /\ s.st \in {"Accepted", "Rejected", "Unsettled"}
         /\ PrintT(ToJson([kind |-> shape.kind, cls |-> (IF t = 0 THEN "none" ELSE TReg.n), verdict |-> s.st, enc |-> rom.type = 3,
-                           corner |-> Corner, app |-> shape.app, sp |-> sp]))
-        /\ s' = [s EXCEPT !.st = "End"] /\ UNCHANGED <<shape, sp, t, img>>
+                           corner |-> Corner, app |-> shape.app, sp |-> sp, be |-> be, beShape |-> BeShape(shape),
+                           curve |-> shape.curve, isk |-> shape.isk]))
+        /\ s' = [s EXCEPT !.st = "End"] /\ UNCHANGED <<shape, sp, be, t, img>>
 Stutter == s.st = "End" /\ UNCHANGED vars
 Next == ReadIvt \/ CheckCrc \/ CheckHmac \/ CertSplit \/ CertBlockV1 \/ CertV1 \/ RkhTable \/ VerifySigV1 \/ Decrypt \/ CertBlockV21 \/ RootKeyRecord
         \/ IskCert \/ CertBlockEnd \/ Manifest \/ ManifestCrc \/ VerifySigV21 \/ CheckDigest \/ Accept \/ Emit \/ Stutter
 Spec == Init /\ [][Next]_vars
 
 (* ---- lemmas *)
-UntamperedAccepted == (t = 0) => s.st # "Rejected"
+UntamperedAccepted == (t = 0 /\ be.emb = "nxp") => s.st # "Rejected"
 TamperRejected == (s.st = "Accepted" /\ t # 0) => TReg.n \in DontCare
 DontCareAccepted == (s.st = "Rejected" /\ t # 0) => TReg.n \notin DontCare
 RegionsCovered == s.st = "Accepted" =>
@@ -236,4 +264,7 @@ CornerNeverAccepted == Corner => s.st # "Accepted"
 SplitPrefixCovered == (s.st = "Unsettled" /\ t # 0) => TReg.n \in {"keystore", "unsettled"}
 (* special value classes of chained computations change nothing for the ROM *)
 SpecialsAccepted == (sp # NoSp /\ s.st \in {"Accepted", "Rejected", "Unsettled"}) => s.st = "Accepted"
+(* signing back ends: whoever signs, the image of the format is accepted; a DER blob stored as delivered never is *)
+BackEndsAccepted == (be.emb = "nxp" /\ t = 0 /\ ~Corner /\ s.st \in {"Accepted", "Rejected", "Unsettled"}) => s.st = "Accepted"
+AsDeliveredRejected == be.emb # "nxp" => s.st \notin {"Accepted", "Unsettled"}
 =============================================================================
